@@ -153,6 +153,8 @@ class gcvar(object):
         self._header = self._parent._data[start:start +
                                           _hdr_size].view(dht)
         self.category = self._header['category'][0].strip()
+        if hasattr(self.category, 'decode'):
+            self.category = self.category.decode()
         self.tracerid = self._header['tracerid'][0]
         self.base_units = self._header['base_units'][0]
         self.catoffset = [row['offset']
@@ -356,19 +358,21 @@ class bpch2(bpch_base):
         tpath = os.path.join(os.path.dirname(path), 'tracerinfo.dat')
         if not os.path.exists(tpath):
             tpath = 'tracerinfo.dat'
-        self._tdata = np.recfromtxt(tpath, dtype=None, comments='#', names=[
-                                    'shortname', 'fullname', 'kgpermole',
-                                    'carbon', 'tracerid', 'scale', 'units'],
-                                    delimiter=[9, 30, 10, 3, 9, 10, 41],
-                                    autostrip=True)
+        self._tdata = np.atleast_1d(np.genfromtxt(
+            tpath, dtype=None, comments='#', names=[
+                'shortname', 'fullname', 'kgpermole',
+                'carbon', 'tracerid', 'scale', 'units'],
+            delimiter=[9, 30, 10, 3, 9, 10, 41],
+            autostrip=True, encoding='latin1'))
 
     def _getdiaginfo(self, path):
         dpath = os.path.join(os.path.dirname(path), 'diaginfo.dat')
         if not os.path.exists(dpath):
             dpath = 'diaginfo.dat'
-        self._ddata = np.recfromtxt(dpath, dtype=None, comments='#', names=[
-                                    'offset', 'category', 'comment'],
-                                    delimiter=[9, 40, 100], autostrip=True)
+        self._ddata = np.atleast_1d(np.genfromtxt(
+            dpath, dtype=None, comments='#', names=[
+                'offset', 'category', 'comment'],
+            delimiter=[9, 40, 100], autostrip=True, encoding='latin1'))
 
 # OFFSET    (I8 )  Constant to add to tracer numbers in order to distinguish
 #                  for the given diagnostic category, as stored in file
